@@ -374,6 +374,18 @@ pub fn gen_flags(rng: &mut Rng, f: &mut Facts) -> Flags {
     flags
 }
 
+/// the longest prefix of at most 255 bytes that ends at a character boundary
+pub fn cut255(s: &str) -> &str {
+    let mut n = 0usize;
+    for c in s.chars() {
+        if n + c.len_utf8() > 255 {
+            break;
+        }
+        n += c.len_utf8();
+    }
+    &s[..n]
+}
+
 /// Render a fact set as decoded-record ops (`f*`) loaded through the binary format `fv`.
 pub fn facts_to_fops(rng: &mut Rng, f: &Facts, flags: &Flags, fv: u8, slot: u32, shuffle: bool, case: &mut Case) {
     case.op("fnew".to_string());
@@ -385,7 +397,8 @@ pub fn facts_to_fops(rng: &mut Rng, f: &Facts, flags: &Flags, fv: u8, slot: u32,
     for (id, nm) in &terms {
         let fl = flags.iter().find(|x| x.0 == *id);
         let (obs, repl) = fl.map(|x| (x.1, x.2)).unwrap_or((false, None));
-        case.op(format!("fterm {} {} {} {}", id, name(nm), b(obs), opt(repl)));
+        // a decoded record: the u8 length field of the formats carries at most 255 name bytes
+        case.op(format!("fterm {} {} {} {}", id, name(cut255(nm)), b(obs), opt(repl)));
     }
     let mut edges = f.edges.clone();
     if shuffle {
@@ -400,7 +413,7 @@ pub fn facts_to_fops(rng: &mut Rng, f: &Facts, flags: &Flags, fv: u8, slot: u32,
             rng.shuffle(&mut recs);
         }
         for (r, nm) in &recs {
-            case.op(format!("frec {} {} {}", KINDS[k], r, name(nm)));
+            case.op(format!("frec {} {} {}", KINDS[k], r, name(if k == 0 { cut255(nm) } else { nm })));
         }
         let mut links = f.links[k].clone();
         if shuffle {
